@@ -43,6 +43,15 @@ def helpers():
 VIA_TEXT = {'open': ('BSC_open', 1, 1), 'mode': ('BSC_chmod', 1, 1), 'access': ('BSC_access', 1, 1),
             'msg': ('BSC_recvfrom', 3, 3), 'flock': ('BSC_sys_flock', 1, 1), 'chflags': ('BSC_fchflags', 1, 1),
             'rtld': None}
+# flag words that reach a family through an event rendering: (decoder, 'S'|'E' word source, word index, shift, prefix)
+VIA_EVENT = {'ast': [('MACH_SCHED', 'S', 0, 0), ('MACH_BLOCK', 'S', 0, 0), ('MACH_DISPATCH', 'S', 1, 0),
+                     ('MACH_IDLE', 'E', 3, 0)],
+             'thstate': [('MACH_DISPATCH', 'S', 2, 0)],
+             'vmprot': [('RealFaultAddressInternal', 'S', 1, 8), ('RealFaultAddressSharedCache', 'S', 1, 8)],
+             'sampler': [('PERF_Event', 'S', 0, 0)], 'kperfti': [('PERF_THD_Data', 'S', 3, 0)],
+             'callstack': [('PERF_STK_UHdr', 'S', 0, 0)], 'rtld': [('DBG_DYLD_TIMING_DLOPEN', 'S', 2, 0)]}
+PREFIX = {'ast': 'AST_', 'thstate': 'TH_', 'vmprot': 'VM_PROT_', 'sampler': 'SAMPLER_', 'kperfti': 'KPERF_TI_',
+          'callstack': 'CALLSTACK_', 'rtld': 'RTLD_'}
 NAME_RE = re.compile(r'[A-Za-z_][A-Za-z_0-9]*')
 
 
@@ -98,6 +107,35 @@ def run(ctx):
                 try:
                     t = pr.render(name, S, [0, 1, 2, 3], [b'/p'])
                     o['shown'] = NAME_RE.findall(tokenize(t)[1][pi])
+                except Exception as ex:
+                    o['shown'] = []
+                    o['err'] = type(ex).__name__
+                obs.append(o)
+    # the same families through the renderings of the events that carry them
+    from .pairing import AUDIT
+    for fam, sites in VIA_EVENT.items():
+        d = FAM[fam]
+        declared = sum(d['single'].values())
+        words = [w for w in words_of(fam, rnd, True) if w < (1 << 32)][:600 if ctx.quick else 5000]
+        for name, src, wi, shift in sites:
+            for w in words:
+                if fam == 'vmprot':
+                    w &= 0xff
+                if fam == 'kperfti':
+                    w &= 0xffff
+                S = [3, 4, 5, 6]
+                E = [0, 1, 2, 3]
+                base = AUDIT[name]['base']
+                S, E = list(base[:4]), list(base[4:])
+                tgt = S if src == 'S' else E
+                tgt[wi] = (tgt[wi] & ~(0xffffffff << shift) & ((1 << 64) - 1)) | (w << shift) if shift else w
+                if fam == 'vmprot':
+                    tgt[wi] = (w << 8) | 2            # low byte = fault type, must stay a defined one
+                o = {'id': '%s/%s/%x' % (fam, name, w), 'kind': 'flags', 'fam': fam,
+                     'bits': [i for i in range(32) if w >> i & 1], 'via': name}
+                try:
+                    t = pr.render(name, S, E, [])
+                    o['shown'] = [n for n in NAME_RE.findall(t) if n.startswith(PREFIX[fam])]
                 except Exception as ex:
                     o['shown'] = []
                     o['err'] = type(ex).__name__
